@@ -187,7 +187,7 @@ class Concretiser:
             self.block_close(key)
         elif t == "import":
             self.mark((key, "t"))
-            self.emit("@import ")
+            self.emit("@IMPORT " if it["form"] == "STRING" else "@import ")
             self.mark((key, "p"))
             self.emit(self.url(it["path"]) if it["form"] == "url" else self.string(it["path"]))
             if it["layer"] != "none":
